@@ -392,21 +392,28 @@ func init() {
 	reg("C10", "C10.7", "T11", "receiver data: Log stores the store's data; NewStore hands out a clone of the entry's map, never the logged map itself", func(o *Ob) {
 		e := o.E
 		ns := o.Fn("am/nflog.NewStore")
-		st := e.StoresToField(ns, "am/nflog.Store", "data")
-		o.Require(len(st) == 1, "newstore-data", "NewStore must set the store's data once", nil)
-		for _, v := range e.ValsUnder(nil, st[0].Val) {
-			s := e.X(ns, v)
-			o.Site(st[0], "Store.data may be "+s)
-			ok := s == "nil" || strings.HasPrefix(s, "makemap:") || s == "maps.Clone(p0.ReceiverData)"
-			o.Check(ok, "newstore-alias", "NewStore hands out "+s+": a stage mutating its store would alter the logged entry in place (unsynchronised, unreplicated)", st[0])
-		}
-		has := false
-		for _, v := range e.ValsUnder(nil, st[0].Val) {
-			if e.X(ns, v) == "maps.Clone(p0.ReceiverData)" {
-				has = true
+		sts := e.StoresToField(ns, "am/nflog.Store", "data")
+		o.Require(len(sts) >= 1, "newstore-data", "NewStore must set the store's data", nil)
+		// what a store may be given: nothing, a map made here (possibly filled from the entry's by maps.Copy), or a clone
+		copied := map[ssa.Value]bool{}
+		for _, c := range e.Calls(ns, "maps.Copy") {
+			if e.Arg(c, 1) == "p0.ReceiverData" {
+				copied[c.Common().Args[0]] = true
 			}
 		}
-		o.Check(has, "newstore-drops", "NewStore no longer carries over the entry's receiver data", st[0])
+		has := false
+		for _, st := range sts {
+			for _, v := range e.ValsUnder(nil, st.Val) {
+				s := e.X(ns, v)
+				o.Site(st, "Store.data may be "+s)
+				ok := s == "nil" || strings.HasPrefix(s, "makemap:") || s == "maps.Clone(p0.ReceiverData)"
+				o.Check(ok, "newstore-alias", "NewStore hands out "+s+": a stage mutating its store would alter the logged entry in place (unsynchronised, unreplicated)", st)
+				if s == "maps.Clone(p0.ReceiverData)" || copied[v] {
+					has = true
+				}
+			}
+		}
+		o.Check(has, "newstore-drops", "NewStore no longer carries over the entry's receiver data", sts[0])
 		// DedupStage gives the store the queried entry unless first notification
 		o.MinSites(2)
 	})
